@@ -77,14 +77,14 @@ claim("C05", "TLC trace validation of rho/weights against the exported interpola
       "integer/BigInt arithmetic on table rows read with numpy directly from thakkar_interp.npz; MC_Promolecule model-checks order/motion invariance, additivity, "
       "positivity and the weight identities over small tables and all atom orders x 24 cube rotations. Real PromoleculeDensity/StockholderWeight objects (element sweeps "
       "over distances spanning the table, molecules of 1-40 atoms, poses from integer quaternions on a float32-exact grid) are evaluated and every point is checked by "
-      "TLC: atom value inside the interpolation interval, set = sum of atoms, positivity, permutation/motion invariance, weight definition, range and complementarity. Also: calls in chunks and on reused buffers, objects kept and moved in place, atoms arriving through .xyz files (label spellings, blank titles, further per-atom columns), a 1101-atom system, the empty atom set, and the density table and reference interpolator themselves (Trace_Lerp).",
+      "TLC: atom value inside the interpolation interval, set = sum of atoms, positivity, permutation/motion invariance, weight definition, range and complementarity. Also: calls in chunks and on reused buffers, objects kept and moved in place through their own positions array (beyond the listed statement: EXTENSION-NOTE only), atoms arriving through .xyz files (label spellings, blank titles, further per-atom columns), a 1101-atom system, the empty atom set, and the density table and reference interpolator themselves (Trace_Lerp).",
       "float32 kernel: relative slack 2e-5 plus an interval for the 1/4096 quantisation of t; points >= 0.35 A from nuclei; compiled kernel used as found.")
 claim("C20", "TLC model checking of the Sobol state machine on the exported direction-number table + trace validation of every generator route",
       "QuasiRandom.tla builds the direction numbers by the Joe-Kuo recurrence in exact integers and runs the Gray-code generator as a state machine; MC_QuasiRandom "
       "(data-driven: table exported from the tree) checks stratification at every power of two and the (0,m,2)-net property for dimensions 1..40 + seeded others "
       "(quick) / all 1..1000 with m <= 12 (thorough, 4.1M states), and enumerates all ordered pairs of calls over a 72-call alphabet for replay. Sessions of shuffled "
       "single/batch/front-end calls on windows [s, s+k] (s <= 10^6, k <= 256, up to 1000 dims) are validated one TLC step per point: Sobol values must equal the spec's "
-      "integers exactly, all values in [0,1), and an observation register demands the same value for the same (method, seed, dim) by every route and order. Sessions include windows across powers of two and across the multiples of 2^16 beyond 2^19, many dimensions (next to the multiples of 128) at large seeds, and both methods asked in turn through the front end. A stream is read in consecutive chunks across powers of two, and far windows are asked from six threads at once. Korobov windows end on all-ones seeds, and calls leave the seed out.",
+      "integers exactly (the point of a seed in the Gray-code enumeration or in the natural one: the statement fixes the point set of each leading block of 2^m, not the order inside it), all values in [0,1), and an observation register demands the same value for the same (method, seed, dim) by every route and order. Sessions include windows across powers of two and across the multiples of 2^16 beyond 2^19, many dimensions (next to the multiples of 128) at large seeds, and both methods asked in turn through the front end. A stream is read in consecutive chunks across powers of two, and far windows are asked from six threads at once. Korobov windows end on all-ones seeds, and calls leave the seed out.",
       "Korobov values have no exact oracle (range, determinism and route agreement to 2^-60 only); compiled kernels used as found.")
 
 claim("C13", "TLC trace validation of P1/supercell/trigonal re-expressions + model checking of the trigonal basis change",
